@@ -138,6 +138,7 @@ class Recorder(object):
 
 
 REC = Recorder()
+SEEN_CODES = {}
 _installed = {}
 
 
@@ -287,6 +288,20 @@ def run_program(pr, name, recursive, tmpdir):
     from malt.impl import api
     m, path = load_module(pr['text'], name, tmpdir)
     res = {'path': path, 'recursive': recursive}
+    # Functions of an EARLIER program file with an equal code object (code equality ignores co_filename; the text,
+    # name and first line coincide): the conversion cache is keyed by the code object, so such a function reuses
+    # the earlier file's generated code and source map (known finding c12-equal-code-objects-share-conversion).
+    # The code objects are kept alive on purpose: whether the weak cache entry survives must not depend on the GC.
+    alias = set()
+    for v in list(vars(m).values()):
+        co = getattr(getattr(v, '__wrapped__', v), '__code__', None)
+        if co is not None and getattr(v, '__module__', None) == name:
+            # ALL earlier files: the cache bucket of a code object holds one conversion per option set, each made
+            # from whichever file asked first with those options
+            earlier = SEEN_CODES.setdefault(co, [])
+            alias.update(earlier)
+            earlier.append(path)
+    res['alias'] = alias
     try:
         m.f0(G.P_VALUE)
         res['orig'] = None
@@ -358,7 +373,11 @@ def judge_program(pr, res, info):
     user = [f for f in res['orig_tb'] if f.filename == path]
     want, units = expected_stack(user, info, res['recursive'])
     got_all = list(md.translated_stack)
-    got = [(fi.lineno, fi.function_name, bool(fi.is_converted)) for fi in got_all if fi.filename == path]
+    alias = res.get('alias', set())
+    cited = sorted(set(fi.filename for fi in got_all if fi.filename in alias))
+    if cited:
+        fails.append(('file-alias', {'what': 'frames of %s are reported with the name of an earlier file that holds an equal code object: %s' % (path, cited)}))
+    got = [(fi.lineno, fi.function_name, bool(fi.is_converted)) for fi in got_all if fi.filename == path or fi.filename in alias]
     if got != want:
         fails.append(('stack', {'expected_user_frames_innermost_first': want, 'observed': got,
                                 'original_traceback': [(f.name, f.lineno) for f in user]}))
@@ -370,7 +389,12 @@ def judge_program(pr, res, info):
             fails.append(('stack', {'expected_innermost_line': user[-1].lineno, 'observed': got[0]}))
     malt_dir = os.path.join(os.path.realpath(vlib.REPO), 'malt') + os.sep
     for fi in got_all:
-        if fi.filename == path:
+        if fi.filename in alias:
+            import linecache
+            src = linecache.getline(fi.filename, fi.lineno).strip() or None     # (may differ from ours in a comment)
+            if (fi.code or '').strip() != src:
+                fails.append(('code-line', {'line': fi.lineno, 'expected': src, 'observed': fi.code}))
+        elif fi.filename == path:
             src = info.lines[fi.lineno - 1].strip() if 0 < fi.lineno <= len(info.lines) else None
             if (fi.code or '').strip() != src:
                 fails.append(('code-line', {'line': fi.lineno, 'expected': src, 'observed': fi.code}))
@@ -394,14 +418,31 @@ def judge_source_maps(pr, res, info):
     """every ag_source_map entry against the statement it was generated from"""
     fails = []
     nent = 0
-    path = res['path']
+    own = (pr, res['path'], info)
     for ename, t in res['convs']:
+        pr, path, info = own
         sm = t.ag_source_map
         gfile = t.ag_module.__file__
         try:
             glines = open(gfile).read().split('\n')
         except OSError:
             continue
+        # A conversion handed out by the cache for an EQUAL code object of an earlier file (known finding
+        # c12-equal-code-objects-share-conversion, reported by judge_program when an error cites that file): it was
+        # made from that file's text (equal code; comments and dead code after a return may differ), so its map is
+        # judged against that text.
+        ofiles = set(o.loc.filename for k, o in sm.items() if k.filename == gfile)
+        if len(ofiles) == 1 and list(ofiles)[0] in res.get('alias', ()):
+            path = list(ofiles)[0]
+            try:
+                atext = open(path).read()
+            except OSError:
+                continue
+            info = ProgInfo(atext)
+            pr = {'markers': {}}
+            for i, l in enumerate(atext.split('\n'), 1):
+                for x in MARK.findall(l.split('#')[0]):
+                    pr['markers'].setdefault(int(x), i)
         shared = []
         for k, o in sm.items():
             nent += 1
@@ -453,6 +494,7 @@ REQUIRED_KNOWN = ['AssertionError', 'AttributeError', 'NameError', 'NotImplement
 F_RECURSION = 'c12-recursion-shares-source-map'
 F_SINGLETON = 'c12-origin-on-shared-ast-singletons'
 F_REWRAP = 'c12-keyerror-rewrap'
+F_CODEALIAS = 'c12-equal-code-objects-share-conversion'
 
 NEST_TEXT = '''import malt
 
@@ -605,7 +647,7 @@ def nesting_oracle(types, fact_of, tmpdir, enc, cases, descr, failures, run):
     return n
 
 
-def corpus_oracle(failures, run):
+def corpus_oracle(failures, run, tmpdir):
     d = os.path.join(vlib.ROOT, 'corpus', PID)
     for fn in sorted(os.listdir(d)) if os.path.isdir(d) else []:
         if not fn.endswith('.py'):
@@ -613,6 +655,15 @@ def corpus_oracle(failures, run):
         spec = importlib.util.spec_from_file_location('c12corpus_' + fn[:-3], os.path.join(d, fn))
         mod = importlib.util.module_from_spec(spec)
         spec.loader.exec_module(mod)
+        if getattr(mod, 'KIND', 'keyerror') == 'alias':
+            a_path, b_path, cited = mod.run(tmpdir)
+            run.count()
+            if any(c != b_path for c in cited) or not cited:
+                cls = F_CODEALIAS if cited and all(c in (a_path, b_path) for c in cited) else None
+                failures.append(('error reported with the name of another file',
+                                 {'what': 'error raised in %s is reported at %r' % (b_path, cited),
+                                  'program': open(os.path.join(d, fn)).read(), 'corpus': 'corpus/%s/%s' % (PID, fn)}, cls))
+            continue
         res = mod.run()
         run.count(len(res))
         for depth, e in res:
@@ -1009,7 +1060,7 @@ def _check(run, nprog, tmpdir):
                              cls))
 
     # 4a. corpus first, then nested wrappers x every exception class of the table
-    corpus_oracle(failures, run)
+    corpus_oracle(failures, run, tmpdir)
     run.extra['nested_wrapper_runs'] = nesting_oracle(exc_types, fact_of, tmpdir, enc, cases, descr, failures, run)
 
     # 3b + 4. generated programs
@@ -1070,6 +1121,8 @@ def _check(run, nprog, tmpdir):
                 continue
             if kind == 'type' and classify_identity(type(res['orig']), type(res['conv'])):
                 cls = F_IDENTITY
+            if kind == 'file-alias':
+                cls = F_CODEALIAS
             if kind == 'source-map-shared':
                 # entries keyed by a line of an ORIGINAL file: ORIGIN stamped by copy_origin on the interpreter-wide
                 # ast.Load()/Store()/operator singletons is read back from the "re-parsed" tree (same objects)
@@ -1082,6 +1135,7 @@ def _check(run, nprog, tmpdir):
                      'message': 'original message not carried',
                      'stack': 'translated_stack does not list the frames of the original traceback',
                      'source-map': 'ag_source_map entry does not point to the statement it was generated from',
+                     'file-alias': 'error reported with the name of another file',
                      'source-map-shared': 'ag_source_map has entries that are not lines of the generated file',
                      }.get(kind, 'error metadata: ' + kind)
             failures.append((title, dict(det, label=label, program=pr['text'], entry='f0', argument=G.P_VALUE,
